@@ -154,6 +154,9 @@ func fragClass(o lib.Outcome) string {
 		switch {
 		case strings.HasSuffix(name, "sema.CheckerError"):
 			cls = "CheckerError"
+		case strings.Contains(name, "parser."):
+			// e.g. ExpressionDepthLimitReachedError: the program is rejected before checking
+			cls = "ParseError"
 		case strings.HasSuffix(name, ".OverflowError"):
 			cls = lib.EOverflow
 		case strings.HasSuffix(name, ".UnderflowError"):
@@ -183,7 +186,7 @@ func fragClass(o lib.Outcome) string {
 	if cls != "" {
 		return cls
 	}
-	if strings.Contains(o.Err.Error(), "Parsing failed") {
+	if strings.Contains(o.Err.Error(), "Parsing failed") || strings.Contains(o.Err.Error(), "expression too deeply nested") {
 		return "ParseError"
 	}
 	if errors.IsInternalError(o.Err) {
